@@ -26,22 +26,24 @@ CONSTANTS Shots, Calcs, WeaponOf, AmmoOf,     \* object graph: functions Shots -
 Weapons == {WeaponOf[s] : s \in Shots}
 Untouched == <<"z0">>      \* zero tokens are flat sequences of strings: the chain of successful zeroings
 
-VARIABLES zero,      \* weapon -> token of its stored zero
+VARIABLES content,   \* ammunition -> how often the CALLER edited its drag table in place (a legitimate change of the arguments)
+          zero,      \* weapon -> token of its stored zero
           version,   \* object -> number of times any field other than a weapon's zero was written
           dirt,      \* calculator -> shot its solver object was last initialised for ("none")
           last, ops
-vars == <<zero, version, dirt, last, ops>>
+vars == <<content, zero, version, dirt, last, ops>>
 
 Objects == Shots \cup Weapons \cup {AmmoOf[s] : s \in Shots} \cup Calcs \cup {"globals", "tables"}
 
-Init == /\ zero = [w \in Weapons |-> Untouched]
+Init == /\ content = [a \in {AmmoOf[s] : s \in Shots} |-> 0]
+        /\ zero = [w \in Weapons |-> Untouched]
         /\ version = [o \in Objects |-> 0]
         /\ dirt = [c \in Calcs |-> "none"]
         /\ last = [a |-> "New", c |-> "", s |-> "", arg |-> "", res |-> <<>>, ok |-> TRUE]
         /\ ops = 0
 
 \* what a computation may depend on
-ArgState(s) == <<s, zero[WeaponOf[s]]>>
+ArgState(s) == <<s, zero[WeaponOf[s]], content[AmmoOf[s]]>>
 Res(a, c, s, arg) ==
   IF DirtRule = "leaks" /\ dirt[c] \notin {"none", s}
   THEN <<a, arg, ArgState(s), c, "after", dirt[c]>>
@@ -51,45 +53,58 @@ Step(l) == ops < MaxOps /\ ops' = ops + 1 /\ last' = l
 
 Fire(c, s, r) ==
   /\ Step([a |-> "Fire", c |-> c, s |-> s, arg |-> r, res |-> Res("Fire", c, s, r), ok |-> TRUE])
-  /\ dirt' = [dirt EXCEPT ![c] = s] /\ UNCHANGED <<zero, version>>
+  /\ dirt' = [dirt EXCEPT ![c] = s] /\ UNCHANGED <<content, zero, version>>
 
 \* a request beyond the projectile's reach: raises a range error carrying the partial trajectory
 FireRaises(c, s) ==
   /\ Step([a |-> "FireRaises", c |-> c, s |-> s, arg |-> "beyond", res |-> Res("FireRaises", c, s, "beyond"), ok |-> FALSE])
-  /\ dirt' = [dirt EXCEPT ![c] = s] /\ UNCHANGED <<zero, version>>
+  /\ dirt' = [dirt EXCEPT ![c] = s] /\ UNCHANGED <<content, zero, version>>
 
 Zero(c, s, d) ==
   /\ Step([a |-> "Zero", c |-> c, s |-> s, arg |-> d, res |-> Res("Zero", c, s, d), ok |-> TRUE])
   /\ zero' = [zero EXCEPT ![WeaponOf[s]] = <<c, s, d>> \o zero[WeaponOf[s]]]
-  /\ dirt' = [dirt EXCEPT ![c] = s] /\ UNCHANGED version
+  /\ dirt' = [dirt EXCEPT ![c] = s] /\ UNCHANGED <<content, version>>
 
 \* an unreachable zero distance: raises and leaves the stored zero alone
 ZeroRaises(c, s) ==
   /\ Step([a |-> "ZeroRaises", c |-> c, s |-> s, arg |-> "unreachable", res |-> Res("ZeroRaises", c, s, "unreachable"), ok |-> FALSE])
-  /\ dirt' = [dirt EXCEPT ![c] = s] /\ UNCHANGED <<zero, version>>
+  /\ dirt' = [dirt EXCEPT ![c] = s] /\ UNCHANGED <<content, zero, version>>
 
 Danger(c, s) ==
   /\ Step([a |-> "Danger", c |-> c, s |-> s, arg |-> "extra", res |-> Res("Danger", c, s, "extra"), ok |-> TRUE])
-  /\ dirt' = [dirt EXCEPT ![c] = s] /\ UNCHANGED <<zero, version>>
+  /\ dirt' = [dirt EXCEPT ![c] = s] /\ UNCHANGED <<content, zero, version>>
 
 \* constructing a multi-BC model from the table another shot's ammunition uses
 Build(s) ==
   /\ Step([a |-> "Build", c |-> "", s |-> s, arg |-> "mbc", res |-> <<"Build", AmmoOf[s]>>, ok |-> TRUE])
+  /\ UNCHANGED <<content, zero, version, dirt>>
+
+\* the caller edits the drag table of a shot's ammunition IN PLACE: the arguments change, and every later result
+\* must be the one for the new content (a solver that cached something derived from the table would not notice)
+EditTable(s) ==
+  /\ content[AmmoOf[s]] < 2
+  /\ Step([a |-> "EditTable", c |-> "", s |-> s, arg |-> "scaleCD", res |-> <<"EditTable", AmmoOf[s]>>, ok |-> TRUE])
+  /\ content' = [content EXCEPT ![AmmoOf[s]] = content[AmmoOf[s]] + 1]
   /\ UNCHANGED <<zero, version, dirt>>
+
+\* a shot whose drag table is malformed (a repeated Mach row): every computation with it raises, every time
+FireBadTable(c) ==
+  /\ Step([a |-> "FireBadTable", c |-> c, s |-> "sbad", arg |-> "plain", res |-> <<"FireBadTable", c>>, ok |-> FALSE])
+  /\ dirt' = [dirt EXCEPT ![c] = "sbad"] /\ UNCHANGED <<content, zero, version>>
 
 Next == \E c \in Calcs, s \in Shots :
           \/ \E r \in Requests : Fire(c, s, r)
-          \/ FireRaises(c, s) \/ ZeroRaises(c, s) \/ Danger(c, s) \/ Build(s)
+          \/ FireRaises(c, s) \/ ZeroRaises(c, s) \/ Danger(c, s) \/ Build(s) \/ EditTable(s) \/ FireBadTable(c)
           \/ \E d \in Distances : Zero(c, s, d)
 Spec == Init /\ [][Next]_vars
 
 ---------------------------------------------------------------------------
 \* the result is the one the same operation gives on a fresh calculator, whatever came before
-C10_HistoryIndependent == (last.a \in {"Fire", "FireRaises", "Zero", "ZeroRaises", "Danger"}) =>
-                             last.res = <<last.a, last.arg, ArgState(last.s), last.c>> \/ last.a = "Zero"
-C10_ZeroResultIndependent == [][(last'.a = "Zero") => last'.res = <<"Zero", last'.arg, <<last'.s, zero[WeaponOf[last'.s]]>>, last'.c>>]_vars
+C10_HistoryIndependent == /\ (last.a \in {"Fire", "FireRaises", "ZeroRaises", "Danger"}) => last.res = <<last.a, last.arg, ArgState(last.s), last.c>>
+                          /\ (last.a = "FireBadTable") => last.res = <<"FireBadTable", last.c>>
+C10_ZeroResultIndependent == [][(last'.a = "Zero") => last'.res = <<"Zero", last'.arg, <<last'.s, zero[WeaponOf[last'.s]], content[AmmoOf[last'.s]]>>, last'.c>>]_vars
 \* nothing but the zeroed weapon's stored zero ever changes, and only when zeroing succeeds
 C10_OnlyZeroWritesZero == [][\A w \in Weapons : zero'[w] # zero[w] => (last'.a = "Zero" /\ WeaponOf[last'.s] = w)]_vars
 C10_NothingElseMutates == \A o \in Objects : version[o] = 0
-C10_FailedZeroKeepsZero == [][(last'.a \in {"ZeroRaises", "FireRaises"}) => zero' = zero]_vars
+C10_FailedZeroKeepsZero == [][(last'.a \in {"ZeroRaises", "FireRaises", "FireBadTable"}) => zero' = zero]_vars
 =============================================================================
